@@ -342,8 +342,8 @@ CLAIMED = {
         "weights 1 / 2 recombined with the inverse-transform rows = circular convolution, given a primitive d-th root of unity; "
         "the rows remove_imag_rows targets multiply identically vanishing quantities). PARTIAL: that the implementation's three "
         "matrices are those tables is checked numerically row by row for d = 1..32 (thorough 1..128), and its output on the "
-        "complete basis for every tested d (1..9, thorough 1..24) under all four option settings; invert_a / invert_b (correlation) "
-        "are tied, not proved. Tie: MatrixMult shapes up to 3 (5), VTB/TVTB d in {1,4,9} (+16,25), network, spa.Bind and Bind "
+        "complete basis for every tested d (1..9, thorough 1..24) under all four option settings (invert_a / invert_b are proved too: "
+        "conjugated tables bind with the inverse). Tie: MatrixMult shapes up to 3 (5), VTB/TVTB d in {1,4,9} (+16,25), network, spa.Bind and Bind "
         "configured through config, all "
         "option sets, unitary x with basis y, linearity probes. One defect (TVTB unbind_left) found and repaired.",
         "Trusted: Coq kernel + vm_compute; Model/Nets.v; Nengo Direct-mode semantics (products exact, connections deliver "
